@@ -10,9 +10,9 @@ PROP = {
                    "bodies and dropped connections; identical payloads under several URLs. Per lifecycle: workers 1..4, max-concurrent-assets 1..8, WARC pool 1..2, on-disk mode, local dedupe on/off, dedupe size, "
                    "--warc-discard-status sets, max-retry 0..2, file rotation. Oracle at the instant each finish message is received (WARC files parsed before anything else, by a reader that does not use the warc "
                    "library): every completely sent response of that seed which the discard policy accepts has a response (or identical-payload revisit) record and a request record with WARC-Target-URI = the "
-                   "requested URL, the HTTP status, payload length and SHA-1 the origin sent; every member decompresses alone, block length = Content-Length, block and payload digests match; no record exists - "
+                   "requested URL (the response record and the request record it names in WARC-Concurrent-To must both be there), the HTTP status, payload length and SHA-1 the origin sent; every member decompresses alone, block length = Content-Length, block and payload digests match; no record exists - "
                    "then, at quiescence, or after the stop - that the origin log does not explain, in particular none for a rejected response."),
-    "level_note": "Real time and real sockets: interleavings are the scheduler's. 'On disk' means visible through the file system after the writer's flush (page cache), not fsync. Asynchronous WARC mode, proxies and CDX dedupe are outside the statement. A seed that never finishes is declared only by lack of progress over 20 x the slowest legitimate step.",
+    "level_note": "A run in which a seed is never reported finished, connections never deliver their records or Stop() never returns (no progress for 20 x the slowest legitimate step + 10 s) cannot be judged and is reported as a violation of this check with the goroutine dump. Real time and real sockets: interleavings are the scheduler's. 'On disk' means visible through the file system after the writer's flush (page cache), not fsync. Asynchronous WARC mode, proxies and CDX dedupe are outside the statement. A seed that never finishes is declared only by lack of progress over 20 x the slowest legitimate step.",
     "rule": "one evaluation = one completely sent response checked at its seed's finish instant; non-trivial = accepted by the discard policy and non-empty; distinct = distinct (size class, kind, encoding, framing, status, record type response|revisit, lying content type, retry path) tuples; C02/rejected counts responses the policy rejects, distinct by (reason, status, discard set)",
     "assumptions": ["origins on 127.0.0.2+ (loopback only)", "stage once-guards are reset between lifecycles by overlay-only VerifReset hooks", "one rapid case = one pipeline lifecycle (start, seeds, quiescence, stop)"],
     "units": [
